@@ -136,10 +136,22 @@ def dm(v):
     return np.outer(v, v.conj())
 
 
-def represent(kets, rhos, rep, field):
-    """the ensemble in the representation handed to toqito: 1-D arrays, (d,1) columns or density matrices"""
+def represent(kets, rhos, rep, field, dtypes=None):
+    """the ensemble in the representation handed to toqito: 1-D arrays, (d,1) columns or density matrices
+    (dtypes: per-state numpy dtype kinds 'i' / 'f' / 'c' for ensembles that deliberately mix dtypes)"""
     out = []
     for i, r in enumerate(rhos):
+        if dtypes is not None:
+            a = np.array(r) if (rep == "dm" or kets is None) else (np.array(kets[i]).reshape(-1) if rep == "1d" else np.array(kets[i]).reshape(-1, 1))
+            k = dtypes[i] if i < len(dtypes) else "c"
+            if k == "i":
+                a = np.ascontiguousarray(np.rint(a.real).astype(np.int64))
+            elif k == "f":
+                a = np.ascontiguousarray(a.real.astype(float))
+            else:
+                a = np.ascontiguousarray(a.astype(complex))
+            out.append(a)
+            continue
         if rep == "dm" or kets is None:
             a = np.array(r)
         elif rep == "1d":
@@ -268,6 +280,24 @@ def build(p):
         pick = rng.permutation(len(idx))[:n]
         kets = [np.kron(ua[:, idx[j][0]], ub[:, idx[j][1]]) for j in pick]
         d = da * db
+    elif kind == "mixed-dtype":
+        # the ensemble a user types in: an integer basis ket first, then a real superposition, then complex ones -- three numpy dtypes in one list
+        def e(dim, i):
+            v = np.zeros(dim)
+            v[i % dim] = 1.0
+            return v
+
+        def plus(dim, ph):
+            return (e(dim, 0) + ph * e(dim, 1)) / np.sqrt(2)
+
+        if "da" in p:
+            da, db = int(p["da"]), int(p["db"])
+            d = da * db
+            kets = [np.kron(e(da, 0), e(db, 0)), np.kron(e(da, 1), plus(db, 1.0)), np.kron(e(da, 1), plus(db, 1j)), np.kron(e(da, 1), plus(db, -1j))][:max(n, 2)]
+        else:
+            kets = [e(d, 0), plus(d, 1.0), plus(d, 1j), plus(d, -1j)][:max(n, 2)]
+        kets += [rand_ket(d, rng, "complex") for _ in range(n - len(kets))]
+        p = dict(p, phases=False, _dtypes=["i", "f"] + ["c"] * (len(kets) - 2))
     elif kind == "identical":
         r0 = rand_dm(d, rng, field, int(p.get("rank", 0)))
         rhos = [r0.copy() for _ in range(n)]
@@ -292,7 +322,7 @@ def build(p):
         rep = "dm"
     n = len(rhos)
     probs, pvec = prior(n, p.get("prior", "uniform"), rng)
-    states = represent(kets, rhos, rep, field)
+    states = represent(kets, rhos, rep, field, p.get("_dtypes"))
     return dict(states=states, probs=probs, rhos=rhos, pvec=pvec, kets=kets, d=rhos[0].shape[0], n=n, field=field, rep=rep)
 
 
